@@ -348,6 +348,33 @@ Definition check_advance (V width : nat) (fr : frame) (bm : beam) (choice : list
   && list_nat_eqb src o_src
   && list_bool_eqb nonext o_nonext.
 
+(* the part of the step function's output the property cares about: every slot the model holds
+   valid (total mass not -inf) agrees in all fields and in the prefix matrix among valid slots;
+   a slot the model holds invalid may carry any mixture of -inf and 0 *)
+Definition zero_or_neginf (m : mass) : bool :=
+  match m with NegInf => true | Fin q => qeqb q 0%Qc end.
+
+Definition check_advance_weak (V width : nat) (fr : frame) (bm : beam) (choice : list nat)
+  (o_y : list (list nat)) (o_last o_lens : list nat) (o_nb o_b : list mass)
+  (o_isp : list (list bool)) : bool :=
+  let nx := fst (advance V fr bm width choice) in
+  let ok k := negb (is_neginf (madd (nth k (b_nb nx) NegInf) (nth k (b_b nx) NegInf))) in
+  topk_ok V fr bm 0%Qc width choice
+  && Nat.eqb (length o_nb) width && Nat.eqb (length o_b) width
+  && Nat.eqb (length o_lens) width && Nat.eqb (length o_y) width
+  && forallb (fun k =>
+       if ok k then
+         Nat.eqb (nth k (b_lens nx) O) (nth k o_lens O)
+         && Nat.eqb (nth k (b_last nx) O) (nth k o_last O)
+         && list_nat_eqb (prefix_of nx k) (firstn (nth k o_lens O) (nth k o_y []))
+         && mass_close 0%Qc (nth k (b_nb nx) NegInf) (nth k o_nb NegInf)
+         && mass_close 0%Qc (nth k (b_b nx) NegInf) (nth k o_b NegInf)
+         && forallb (fun k' => negb (ok k')
+                               || Bool.eqb (nth k' (nth k (b_isp nx) []) false)
+                                           (nth k' (nth k o_isp []) false)) (seq 0 width)
+       else zero_or_neginf (nth k o_nb NegInf) && zero_or_neginf (nth k o_b NegInf))
+     (seq 0 width).
+
 (* CTCPrefixSearch.__call__ for one element.  The implementation's output is given as
    (valid part of each column, y_lens, y_probs). *)
 Definition out_close (eps : Qc) (m : list (list nat) * list nat * list mass)
